@@ -269,3 +269,17 @@ CLAIMS["C46"] = (
     "6/C46", TRUSTED + "; completeness relies on the published component bounds for minimal solutions (a returned "
     "vector outside the box is still checked for minimality directly, so the bound cannot cause an alarm)",
     "TLA+ definition of the Hilbert basis + TLC trace validation")
+
+CLAIMS["C32"] = (
+    "model_checking",
+    "TLC enumerates n in 0..130 and selected larger n (perfect powers, primorials) for 31 one-argument functions, all "
+    "pairs in -12..12 plus larger samples for 19 two-argument functions, and seeded (a, n, m, r/s) tuples for modular "
+    "roots, rational modular powers, n-th power residues and CRT; TLC validates every recorded result against the "
+    "definition written in module NT (divisibility and gcd by enumeration, both rounding conventions, residues and "
+    "roots by enumeration, Legendre/Jacobi/Kronecker by factorisation, orders / totient / Carmichael / primitive "
+    "roots by definition, Mobius and Mertens, Fibonacci/Lucas recurrences, Bernoulli and harmonic numbers over exact "
+    "rationals, perfect powers, polygonal numbers); factor-finding methods are validated by contract (a reported "
+    "factor is proper; complete methods must factor every composite; documented argument limits may be refused)",
+    "6/C32", TRUSTED + "; 'random large arguments' of the property are not covered: results beyond TLC's 32-bit "
+    "integers are not decided",
+    "TLA+ definitions (module NT) + TLC trace validation")
